@@ -1,13 +1,50 @@
-"""C09 — exact variants on inexact floating-point weights.  Lean has no usable theory of IEEE doubles, so the
-rounding analysis is not a theorem; proved is why rounding cannot hurt VALIDITY (any odd cycle per phase gives
-a basis: runIn_basis) and how a per-phase factor propagates (run_weight with alpha).  The rest is checked in
-exact rational arithmetic on the implementation's outputs."""
+"""C09 — exact variants on inexact floating-point weights.  Props/C09.lean: binary64 addition modelled on scaled integers
+(rounding lemmas, accumulated-sum bound), Dijkstra in double arithmetic as a verified certificate, selection by computed weight,
+de Pina with a rational per-phase factor, and the verified per-run certificate checkRunPotRat.  The missing link (the double
+searches do return a per-phase approximation) is validated on every run, not proved.  Independent oracle: python Fractions."""
 import json
 from fractions import Fraction
 from gcommon import *
 from exact import cycles_of, oracle_c01
 
-THEOREMS = ["Parmcb.runIn_basis", "Parmcb.run_weight", "Parmcb.runFrom_weight"]
+THEOREMS = ["Parmcb.runIn_basis", "Parmcb.run_weight", "Parmcb.runFrom_weight", "Parmcb.run_weight_rat", "Parmcb.checkRunPotRat_sound"] + \
+    ["Parmcb.C09." + t for t in ["c09_rnd_exact", "c09_rnd_err", "c09_rnd_mono", "c09_rnd_idem", "c09_fadd_inflationary", "c09_fsum_bounds", "c09_fsum_rel",
+                                 "c09_select_partial", "c09_valid_partial", "c09_near_min_partial", "c09_within_1e9_partial",
+                                 "c09_float_spt_lower", "c09_float_spt_approx", "c09_validated_run_partial", "c09_float_dijkstra_cert", "c09_float_dijkstra_approx", "c09_float_lex_dijkstra_cert"]]
+P_FACTOR, Q_FACTOR = 2 ** 32 + 1, 2 ** 32 - 1
+
+def dyadic(xs):
+    """doubles -> exact integers on a common power-of-two scale"""
+    fr = [Fraction(x) for x in xs]
+    D = max([f.denominator for f in fr] + [1])
+    return [int(f * D) for f in fr], D
+
+def exactq_text(j, c, toks, v, block):
+    """the run of an exact variant on double weights as a driver case: weights exactly as integers, the implementation's
+    index / dim / cycle lines unchanged"""
+    W, _ = dyadic([float(t) for t in toks])
+    s = "case %s exactq d 0 %s %d %d\n" % (j, v, P_FACTOR, Q_FACTOR) + "g %d %d\n" % (c[0], len(c[1]))
+    s += "".join("e %d %d %d\n" % (u, w_, W[i]) for i, (u, w_, _) in enumerate(c[1]))
+    for w in block["lines"]:
+        if w[0] in ("index", "dim", "cycle", "init"): s += " ".join(w) + "\n"
+    return s + "end\n"
+
+def fspt_text(j, c, toks, block):
+    """labels of SPTree (ltree/ld) and parmcb::dijkstra (dtree/dd) in double arithmetic -> driver cases fspt + fsum"""
+    vals = [float(t) for t in toks]
+    labs = [float.fromhex(w[2]) for w in block["lines"] if w[0] in ("ld", "dd")]
+    acc = line(block, "acc")
+    allv, D = dyadic(vals + labs + ([float.fromhex(acc[0])] if acc else []))
+    W = allv[:len(vals)]
+    conv = lambda h: int(Fraction(float.fromhex(h)) * D)
+    s = "case %s fspt\n" % j + "g %d %d\n" % (c[0], len(c[1])) + "".join("e %d %d %d\n" % (u, w_, W[i]) for i, (u, w_, _) in enumerate(c[1]))
+    for w in block["lines"]:
+        if w[0] in ("ltree", "dtree"): s += "s %s %s\n" % (w[1], w[0][0])
+        elif w[0] in ("ld", "dd"): s += "d %s %d %s\n" % (w[1], conv(w[2]), w[3])
+    s += "end\n"
+    if acc: s += "case %s-acc fsum\nfsum %s %d\nend\n" % (j, " ".join(map(str, W)), conv(acc[0]))
+    return s
+
 VARIANTS = ["signed", "fvs", "iso", "signed_tbb", "fvs_tbb", "iso_tbb"]
 KNOWN_KEY = "iso-trees-inexact-weights"
 
@@ -36,9 +73,11 @@ def judge(case, toks, block):
     return None
 
 def run(tier, replay=None):
-    res = Result("C09", tier, "other")
-    res.assumptions = ["no Lean theory of IEEE-754 doubles: c09_fp_partial (double Dijkstra returns a (1+eps)-shortest path) is stated as a hypothesis of run_weight's alpha and NOT proved",
-                       "doubles are converted exactly to rationals (python Fraction) for every comparison"]
+    res = Result("C09", tier, "proof")
+    res.assumptions = ["PARTIAL: the end-to-end literal models compute with exact Int weights; that the double-arithmetic searches return a per-phase (2^32+1)/(2^32-1)-approximation is NOT a theorem — it is validated on every generated run by the verified certificate checkRunPotRat (c09_validated_run_partial)",
+                       "Model/Float.lean models binary64 addition (round to nearest, ties to even) on values scaled to integers; no overflow/underflow in the property's range [1e-3,1e3]; tied to the hardware's additions on every run (harness kind ftrees: acc, ld, dd lines vs Float.fsum)",
+                       "doubles are converted exactly to rationals / integers (python Fraction, common power-of-two scale) for every comparison",
+                       "signed_tbb with several threads fills its support vector in an unobserved order: those runs are judged by the python oracle only (every second signed_tbb run is limited to one thread and validated by the certificate)"]
     lean_ok = lean_gate(res, "Parmcb", THEOREMS)
     binary, log = compile_harness("h_graph.cpp")
     if binary is None:
@@ -79,26 +118,61 @@ def run(tier, replay=None):
             toks = [repr(r.randint(1, 9) / 1000 + r.choice([0, 0, 1, 2, 4, 7]) * 1e-10) for _ in E]
             for v in VARIANTS:
                 jobs["n%d-%s" % (i, v)] = ((n, [(a, b, 1) for (a, b) in E], 0, "near-ties"), toks, v)
+    import zlib
+    def one_thread(j): return zlib.crc32(j.encode()) % 2 == 0
     text = ""
     for j, (c, toks, v) in jobs.items():
-        text += "case %s exactf d 0 %s\n" % (j, v) + "g %d %d\n" % (c[0], len(c[1])) + "".join("e %d %d %s\n" % (u, w_, t) for (u, w_, _), t in zip(c[1], toks)) + "end\n"
+        text += "case %s exactf d 0 %s%s\n" % (j, v, " 1" if v == "signed_tbb" and one_thread(j) else "") + "g %d %d\n" % (c[0], len(c[1])) + "".join("e %d %d %s\n" % (u, w_, t) for (u, w_, _), t in zip(c[1], toks)) + "end\n"
     rc, out, err = run_harness(binary, text)
     blocks = parse_blocks(out)
     bad = []
     for j, (c, toks, v) in jobs.items():
         why = judge(c, toks, blocks.get(j, {"lines": []}))
         if why: bad.append((j, why))
+    # --- Lean side (1): every run is validated by the VERIFIED certificate checkRunPotRat (c09_validated_run_partial): per phase
+    # the emitted cycle is in the cycle space, odd against the model's support vector and within (2^32+1)/(2^32-1) of the exact
+    # optimum, which is certified as a lower bound by potentials.  signed_tbb with several threads fills the support vector
+    # in an unobserved order: those runs are judged by the python oracle only.
+    qtext, qjobs = "", []
+    for j, (c, toks, v) in jobs.items():
+        b = blocks.get(j)
+        if b is None or line(b, "dim") is None: continue
+        if v == "signed_tbb" and not one_thread(j) and int(line(b, "dim")[0]) > 1: continue
+        qtext += exactq_text(j, c, toks, v, b); qjobs.append(j)
+    qoks, qdiffs, qviols = parse_driver(run_driver(qtext)) if qtext else ([], [], [])
+    bad_ids = {j for j, _ in bad}
+    for w in qviols + qdiffs:
+        if w[1] not in bad_ids: bad.append((w[1], "trace validation on exact dyadic weights: " + " ".join(w[2:])[:300])); bad_ids.add(w[1])
+    # --- Lean side (2): the double-arithmetic labels of SPTree and parmcb::dijkstra on the same graphs pass the verified
+    # certificate checkFloatSPT (c09_float_spt_lower / _approx), and double accumulation is Float.fsum (the rounding model)
+    ftext, fcases, seen = "", {}, set()
+    for j, (c, toks, v) in jobs.items():
+        key = json.dumps([c[0], c[1], toks])
+        if key in seen or len(seen) >= (400 if tier == "quick" else 4000): continue
+        seen.add(key); fcases["F" + j] = (c, toks)
+        ftext += "case F%s ftrees d 0\n" % j + "g %d %d\n" % (c[0], len(c[1])) + "".join("e %d %d %s\n" % (u, w_, t) for (u, w_, _), t in zip(c[1], toks)) + "end\n"
+    frc, fout, ferr = run_harness(binary, ftext) if ftext else (0, "", "")
+    fblocks = parse_blocks(fout)
+    dtext = "".join(fspt_text(j, c, toks, fblocks[j]) for j, (c, toks) in fcases.items() if j in fblocks)
+    foks, fdiffs, fviols = parse_driver(run_driver(dtext)) if dtext else ([], [], [])
+    fbad = [(w[1], " ".join(w[2:])[:300]) for w in fviols + fdiffs]
+    if frc != 0 or len(fblocks) != len(fcases): fbad.append(("ftrees", "harness crashed on the double-label dump: " + ferr[-300:]))
     known = [b for b in bad if jobs[b[0]][2].startswith("iso")]
     other = [b for b in bad if not jobs[b[0]][2].startswith("iso")]
     res.coverage.update({"explanation": "graphs with decimal weights (j/10, j/1000), near-tie weights (k/1000 + a few 1e-10) and random doubles in [1e-3,1e3] through all six exact entry points; the doubles are turned into exact rationals and the C01 oracle (count, simple cycles, GF(2) independence), |ret - sum| and sum <= (1+1e-9) x exact optimum are evaluated in rational arithmetic. Theorems cover validity for ANY per-phase odd cycle and the propagation of a per-phase factor; the floating-point error bound itself is not a theorem.",
         "evaluations": len(jobs), "distinct_nontrivial": len({json.dumps([c[0], c[1], t, v]) for (c, t, v) in jobs.values() if len(c[1]) - c[0] + components(c[0], c[1]) >= 1}),
         "rule": "random structured graph x weight tokens x variant; non-trivial = cycle space dimension >= 1",
-        "known_finding_hits": len(known), "samples": [{"n": c[0], "edges": [[u, v, t] for (u, v, _), t in zip(c[1], toks)], "variant": v} for (c, toks, v) in list(jobs.values())[:2]]})
+        "known_finding_hits": len(known), "runs_validated_by_verified_certificate": len(qoks), "runs_with_a_phase_not_exactly_minimum": sum(1 for w in qoks if w[-1] != "0"),
+        "float_spt_certificates": {"graphs": len([w for w in foks if not w[1].endswith("-acc")]), "trees": sum(int(w[-1]) for w in foks if not w[1].endswith("-acc")), "accumulations": len([w for w in foks if w[1].endswith("-acc")])}, "samples": [{"n": c[0], "edges": [[u, v, t] for (u, v, _), t in zip(c[1], toks)], "variant": v} for (c, toks, v) in list(jobs.values())[:2]]})
     if rc != 0 and not bad:
         res.violation("harness crashed", {"kind": "crash", "stderr": err[-3000:]}); return res.finish()
     for (j, why) in known[:1]:
         c, toks, v = jobs[j]
         res.violation("C09 %s on inexact weights: %s" % (v, why), {"finding_key": KNOWN_KEY, "kind": "graphf", "n": c[0], "edges": [[u, w_, t] for (u, w_, _), t in zip(c[1], toks)], "variant": v, "why": why, "count": len(known)})
+    if fbad:
+        j, why = fbad[0]
+        c, toks = fcases.get(j.replace("-acc", ""), ((0, [], 0, ""), []))
+        res.violation("C09 double-arithmetic labels / rounding model: %s" % why, {"kind": "graphf-labels", "n": c[0], "edges": [[u, w_, t] for (u, w_, _), t in zip(c[1], toks)], "why": why, "count": len(fbad)}, found=False)
     if other:
         j, why = other[0]
         c, toks, v = jobs[j]
